@@ -1,11 +1,11 @@
 package sqlh
 
 import (
-	"os"
-	"runtime"
 	"context"
 	"encoding/json"
 	"fmt"
+	"os"
+	"runtime"
 	"sort"
 	"strconv"
 	"strings"
